@@ -199,6 +199,26 @@ impl Sweep {
             embed: true,
         });
 
+        // ---- rules with a length threshold (LongSentences fires above 40 words) need long inputs:
+        //      unterminated / terminated long sentences in every structural position
+        let w41: String = std::iter::repeat("word").take(41).collect::<Vec<_>>().join(" ");
+        let w45: String = std::iter::repeat("other").take(45).collect::<Vec<_>>().join(" ");
+        let mut long: Vec<String> = vec![];
+        for w in [&w41, &w45] {
+            for pat in [
+                "{w}", "{w}.", "{w} ", "Hi. {w}", "Hi. {w}\n", "Hi. {w}\n\nNext one.", "{w}\n\n{w}", "{w}.\n\n{w}", "- {w}\n- item", "- {w}\n\ntext",
+                "> {w}\n\ntext", "# {w}\n\ntext", "\"{w}", "({w}", "{w}\n\n\n", "*{w}*\n\nmore", "a\n\n{w}\n\nb", "{w}, {w}; {w}",
+            ] {
+                long.push(pat.replace("{w}", w));
+            }
+        }
+        fams.push(Family {
+            name: "L/long-sentences".into(),
+            fes: (0..fes.len()).collect(),
+            generator: Gen::List(Arc::new(long)),
+            embed: true,
+        });
+
         // ---- G2: every trigger word next to every other -------------------------------------
         let vocab = Arc::new(h.vocab.clone());
         let fe_plain = fe_idx(&fes, name_is("plain"));
@@ -1021,10 +1041,18 @@ impl Job for Sweep {
 pub struct Ladder {
     pub tier: Tier,
     pub fes: Vec<FrontEnd>,
-    /// (front-end index, unit)
+    /// (front-end index, unit); a unit may be written `prefix\u{1}unit`: the prefix is emitted
+    /// once, the unit pumped (literals whose length is unbounded: `0x` + digits, `1e` + digits …)
     pub cases: Vec<(usize, String)>,
     pub curated: Arc<FstDictionary>,
     linter: Option<LintGroup>,
+}
+
+fn pump(unit: &str, n: usize) -> String {
+    match unit.split_once('\u{1}') {
+        Some((pre, u)) => format!("{pre}{}", u.repeat(n)),
+        None => unit.repeat(n),
+    }
 }
 
 impl Ladder {
@@ -1050,7 +1078,9 @@ impl Ladder {
                 "plain" => {
                     add_units(&mut cases, i, &sigma_char(), tier == Tier::Thorough);
                     // long single tokens of every lexical class
-                    for u in ["ab", "1", "a.", "a'", "x@", "a-", "e.g. ", "1st ", "the the ", "http://a.b/", "a@b.co "] {
+                    for u in ["ab", "1", "a.", "a'", "x@", "a-", "e.g. ", "1st ", "the the ", "http://a.b/", "a@b.co ",
+                        // literals of unbounded length behind a fixed prefix
+                        "0x\u{1}F", "0x\u{1}1", "1\u{1}0", "1e\u{1}9", "1.\u{1}0", "$\u{1}9", "a@\u{1}b.", "http://\u{1}a/", "[\u{1}a-", "[a\u{1}-z", "\"\u{1}a ", "1\u{1}st", "1\u{1}s", "19\u{1}0s", "a\u{1}'s", "a'\u{1}a'"] {
                         cases.push((i, u.to_string()));
                     }
                 }
@@ -1094,9 +1124,17 @@ impl Job for Ladder {
         let (fe, unit) = self.cases[idx as usize].clone();
         let max_pow = self.tier.pick(10, 13);
         let mut times: Vec<(usize, f64)> = vec![];
-        for p in 6..=max_pow {
+        // prefixed literals are also tried at every small length (thresholds such as 17 hex digits)
+        let first_pow = if unit.contains('\u{1}') { 0 } else { 6 };
+        for p in first_pow..=max_pow {
             let n = 1usize << p;
-            let text = unit.repeat(n);
+            let text = pump(&unit, n);
+            if first_pow == 0 && p <= 5 {
+                // every length between the powers of two as well, untimed
+                for m in (1usize << p)..(2usize << p) {
+                    let _ = self.time_once(fe, &pump(&unit, m));
+                }
+            }
             let mut best = f64::MAX;
             for _ in 0..2 {
                 best = best.min(self.time_once(fe, &text));
